@@ -2,6 +2,7 @@ import IndicatifModel.Model.Limiter
 import IndicatifModel.Model.World
 import IndicatifModel.Model.Multi
 import IndicatifModel.Model.Rows
+import IndicatifModel.Model.Faults
 import IndicatifModel.Model.Position
 import IndicatifModel.Model.Template
 import IndicatifModel.Model.Locks
@@ -149,6 +150,34 @@ def runMULTI (rest : String) : String :=
         let w := w0.run mops
         s!"calls={w.calls} panicked={w.panicked} " ++ " ; ".intercalate (w.snaps.map showSnap)
       | _, _, _, _, _ => "bad-op"
+    | _ => "bad-op"
+  | _ => "bad-op"
+
+/-- `MULTIF FX K STICKY UNWRAP W H HZ T0 ; op ; op …` → per operation the reported `io::Result` and whether a
+terminal call failed during it, then the totals (fault model of C18) -/
+def runMULTIF (rest : String) : String :=
+  match rest.splitOn ";" with
+  | hdr :: ops =>
+    match (hdr.trimAscii.toString.splitOn " ").filter (· ≠ "") with
+    | [fxs, k, sticky, unwrap, w, h, hz, t0] =>
+      match k.toNat?, w.toNat?, h.toNat?, hz.toNat?, t0.toNat?, ops.mapM parseMOp with
+      | some K, some W, some H, some HZ, some T0, some mops =>
+        let fx := parseFx fxs
+        let lim := if HZ = 0 then none else
+          some (Limiter.drawCfg Limiter.LFix.current HZ, ({ cap := 20, prev := T0 } : Limiter.St))
+        let fs0 : Faults.FS := { fault := some (K, sticky == "1") }
+        let m0 : Multi := { target := { W := W, H := H, limiter := lim, fx := fx } }
+        let w0 : Faults.FW := { multi := m0, now := T0, fs := fs0, unwrapSites := unwrap == "1" }
+        let (w, outs) := mops.foldl (fun (acc : Faults.FW × List String) op =>
+          let r := acc.1.step op
+          let fd := decide (r.1.fs.failed > acc.1.fs.failed)
+          let res := match r.2 with | none => "-" | some true => "ok" | some false => "err"
+          let pn := if r.1.panicked then "panic" else "ok"
+          let fds := if fd then "1" else "0"
+          (r.1, acc.2 ++ [res ++ ":" ++ fds ++ ":" ++ pn])) (w0, [])
+        let log := w.bars.map (fun mb => toString mb.b.pos ++ "/" ++ (match mb.b.len with | some l => toString l | none => "none") ++ "/" ++ toString mb.b.finished)
+        " ".intercalate outs ++ s!" calls={w.fs.calls} failed={w.fs.failed} log=" ++ ",".intercalate log
+      | _, _, _, _, _, _ => "bad-op"
     | _ => "bad-op"
   | _ => "bad-op"
 
@@ -427,6 +456,7 @@ def handle (line : String) : String :=
   | "C07" :: _ => runC07 ((line.trimAscii.toString.drop 4).toString)
   | "BAR" :: _ => runBAR ((line.trimAscii.toString.drop 4).toString)
   | "MULTI" :: _ => runMULTI ((line.trimAscii.toString.drop 6).toString)
+  | "MULTIF" :: _ => runMULTIF ((line.trimAscii.toString.drop 7).toString)
   | "ROWS" :: _ => runROWS ((line.trimAscii.toString.drop 5).toString)
   | _ => "bad-op"
 
